@@ -455,6 +455,124 @@ pub fn generate_perm(seed: u64, n: usize, emit: &mut dyn FnMut(String)) {
 	}
 }
 
+/// A `Deserialize` type that records what a dynamically typed target receives
+pub struct AnyOut(pub Out);
+impl<'de> serde::Deserialize<'de> for AnyOut {
+	fn deserialize<D: serde::Deserializer<'de>>(d: D) -> Result<Self, D::Error> {
+		use serde::de::DeserializeSeed;
+		crate::hintde::HS(&Hint::Any).deserialize(d).map(AnyOut)
+	}
+}
+
+/// `single <schema> <sv> <other-schema> <k> <xbytes>*k`: single-object encoding of the value, then
+/// reading of that message and of damaged variants, from a slice and from a 1-byte-chunk reader,
+/// under the schema and under another schema
+pub fn run_single(line: &str) -> Result<String, String> {
+	let mut r = R::new(line);
+	let _ = r.tok()?;
+	let raw = r.schema()?;
+	let v = r.sv()?;
+	let other_raw = r.schema()?;
+	let variants = r.list(|r| r.xb())?;
+	let schema = match build::to_schema_mut(&raw).freeze() {
+		Ok(s) => s,
+		Err(_) => return Ok("freeze-err".into()),
+	};
+	let other = match build::to_schema_mut(&other_raw).freeze() {
+		Ok(s) => s,
+		Err(_) => return Ok("freeze-err".into()),
+	};
+	let mut config = serde_avro_fast::ser::SerializerConfig::new(&schema);
+	let msg = serde_avro_fast::to_single_object_vec(&v, &mut config);
+	let read = |bytes: &[u8], sch: &serde_avro_fast::Schema| -> String {
+		let fmt = |res: Result<AnyOut, serde_avro_fast::de::DeError>| match res {
+			Ok(o) => {
+				let mut w = W::default();
+				w.t("ok").out(&o.0);
+				w.s
+			}
+			Err(e) => {
+				if e.io_error().is_some() {
+					"err io".into()
+				} else {
+					"err custom".into()
+				}
+			}
+		};
+		let a = fmt(serde_avro_fast::from_single_object_slice(bytes, sch));
+		let cr = crate::streams::de::ChunkReader {
+			data: bytes.to_vec(),
+			pos: 0,
+			avail: 0,
+			sched: Default::default(),
+			last: 1,
+		};
+		let b = fmt(serde_avro_fast::from_single_object_reader(cr, sch));
+		format!("{a} / {b}")
+	};
+	let mut outs = vec![];
+	match &msg {
+		Ok(m) => {
+			outs.push(format!("ser {}", hex(m)));
+			outs.push(read(m, &schema));
+			outs.push(read(m, &other));
+		}
+		Err(_) => outs.push("ser-err".into()),
+	}
+	for b in &variants {
+		outs.push(read(b, &schema));
+	}
+	Ok(outs.join(" ; "))
+}
+
+pub fn generate_single(seed: u64, n: usize, emit: &mut dyn FnMut(String)) {
+	let mut rng = rng_from(seed, "single");
+	let mut produced = 0;
+	while produced < n {
+		let mut sg = SchemaGen::new(&mut rng, 8, false);
+		sg.decimal_limits = true;
+		let schema = sg.gen_root();
+		let mut sg2 = SchemaGen::new(&mut rng, 6, false);
+		sg2.decimal_limits = true;
+		let other = sg2.gen_root();
+		let Ok(frozen) = build::to_schema_mut(&schema).freeze() else { continue };
+		let mut vg = ValueGen {
+			rng: &mut rng,
+			schema: &schema,
+			allow_slow: false,
+			exotic: 0.1,
+			invalid: 0.0,
+			by_name_only: true,
+			maybe_invalid: false,
+			no_decimal_oracle: false,
+		};
+		let v = vg.gen(0, 0);
+		let mut config = serde_avro_fast::ser::SerializerConfig::new(&frozen);
+		let Ok(msg) = serde_avro_fast::to_single_object_vec(&v, &mut config) else { continue };
+		// damaged variants: every header truncation, marker / fingerprint flips, payload cut
+		let mut variants: Vec<Vec<u8>> = (0..10.min(msg.len())).map(|k| msg[..k].to_vec()).collect();
+		for at in [0usize, 1, 2, 5, 9] {
+			if at < msg.len() {
+				let mut m = msg.clone();
+				m[at] ^= 1 << rng.gen_range(0..8);
+				variants.push(m);
+			}
+		}
+		if msg.len() > 10 {
+			let k = rng.gen_range(10..msg.len());
+			variants.push(msg[..k].to_vec());
+		}
+		let mut w = W::default();
+		w.t("single").schema(&schema).sv(&v).schema(&other).n(variants.len());
+		for b in &variants {
+			w.xb(b);
+		}
+		ext_entries(&mut w, &schema, &v);
+		emit(w.s);
+		produced += 1;
+	}
+}
+
 pub fn run(line: &str) -> Result<String, String> {
 	let mut r = R::new(line);
 	let _ = r.tok()?;
